@@ -159,12 +159,12 @@ def rule_determine(ctx, vmod):
                       "the value built as %s of %s is analysed as %s, expected (%s, %d, %d, %d)" % (
                           label, base, [(p.kind, p.value) for p in ps][:2], base, d, rat[0], rat[1]))
     # (b) +-1% neighbourhoods of undotted and single-dotted recognised values
-    for base in BASES[1:-1]:
+    for base in BASES:
         classes = [("plain", base, 0, (1, 1), base), ("dotted", base, 1, (1, 1), o_dots(base, 1))]
         classes += [(name, base, 0, rat, base * Fraction(rat[0], rat[1])) for name, rat in RATIOS.items()]
         for label, b, d, rat, centre in classes:
-            if centre * Fraction(101, 100) >= 256 or centre * Fraction(99, 100) <= Fraction(1, 4):
-                continue
+            if centre > 128 or centre < Fraction(1, 4):
+                continue  # outside the vocabulary: tuplets / dots of the extreme bases that leave the table
             x = FInt(centre * Fraction(99, 100), centre * Fraction(101, 100), "value")
 
             def mk(ch):
